@@ -789,7 +789,8 @@ class Harness:
                         if b.get('stopval') is not None:
                             mb.stopval = self.val(b['stopval'])
                         kwargs.update(x_alt=mb.alt, x_stopval=mb.stopval, x_stop_hook=self.stop_assign)
-                        if b.get('initvia') == 'def':
+                        mb.initreg = b.get('initvia') != 'def'
+                        if not mb.initreg:
                             blk = Setter(name, x_reg=NOVAL, initdef=mb.init, **kwargs)
                         else:
                             blk = Setter(name, x_reg=mb.init, **kwargs)
